@@ -2,6 +2,7 @@ package main
 
 import (
 	"fmt"
+	"go/ast"
 	"go/token"
 	"go/types"
 	"net/netip"
@@ -47,11 +48,26 @@ type vBool struct{ f string }
 type vStr struct{ bs []vWord }
 
 // vSeq is an array or slice value of concrete length.
+//
+// While the body of a function is executed on the symbolic parameter, arrays and slices are
+// immutable values (append copies).  While a package-level INITIALISER is evaluated (no
+// symbolic value exists there, every branch is decided, nothing forks) slices are
+// references as in Go: elems is a Go slice that shares its backing array with the slices
+// it was cut from, with the same capacity Go gives it, so that s[i] = v, append within the
+// capacity, copy and in-place sorting have Go's aliasing.  st is the allocation:
+// exact = its capacity is what Go's would be (literals, make); an allocation made by a
+// GROWING append gets exactly the needed capacity here, while Go rounds up by an unspecified
+// amount, so the allocation it grew from is marked dead when THAT one was inexact too (Go
+// might have appended in place), and any later use of a slice of a dead allocation is an
+// error.  frozen = belongs to a finished initialiser: never written again.
 type vSeq struct {
 	elems []value
 	typ   types.Type
 	array bool
+	st    *sstore
 }
+
+type sstore struct{ exact, dead, frozen bool }
 
 // vStruct is a struct value; fields by index of the underlying *types.Struct.
 type vStruct struct {
@@ -71,11 +87,25 @@ type vAddr struct {
 	bs   []vWord
 }
 
-// vFunc is a function value: a declared function of the package or a function literal
-// with the frame it was created in.
+// vFunc is a function value: a declared function or method of the package (a method
+// expression T.m takes the receiver as its first argument, a method value x.m has it bound),
+// a function literal with the frame it was created in, or a net/netip method bound to its
+// receiver (native).
 type vFunc struct {
 	body   funcBody
 	closed *frame
+	bound  []value
+	native func(args []value, at ast.Node) (value, error)
+}
+
+// vCase is a value that depends on the parameter through a condition only: `if cond then a
+// else b` with a, b values of the same Go type (typically the -1/0/+1 of a three-way
+// comparison, or an index found by a search).  Operators are applied to the two arms
+// separately (a case split on the formula that produced the value); a vCase of booleans is
+// never built, it is the formula ite(cond, a, b).
+type vCase struct {
+	cond string
+	a, b value
 }
 
 // vTuple is the result of a call with several results.
@@ -354,10 +384,28 @@ func geWord(w vWord, c uint64) (string, error) {
 	if n%8 != 0 {
 		return "", fmt.Errorf("ordering comparison of a %d-bit value", n)
 	}
+	cb := make([]int64, n/8)
+	for k := range cb {
+		cb[k] = int64(c >> uint((n/8-1-k)*8) & 0xFF)
+	}
+	return geBytes(w, cb)
+}
+
+// geBytes is geWord for a constant given by its bytes, most significant first: the
+// lexicographic comparison  b0 > c0 ∨ (b0 = c0 ∧ (b1 > c1 ∨ (b1 = c1 ∧ …))).
+func geBytes(w vWord, cb []int64) (string, error) {
+	n := len(w.bits)
+	if n%8 != 0 || len(cb) != n/8 {
+		return "", fmt.Errorf("ordering comparison of a %d-bit value", n)
+	}
 	if w.signed && w.bits[n-1].sym {
 		return "", fmt.Errorf("ordering comparison of a signed symbolic value")
 	}
-	if c == 0 {
+	zero := true
+	for _, c := range cb {
+		zero = zero && c == 0
+	}
+	if zero {
 		return fTT, nil // every unsigned value is >= 0
 	}
 	nb := n / 8
@@ -368,12 +416,12 @@ func geWord(w vWord, c uint64) (string, error) {
 		}
 		lo := (nb - 1 - k) * 8
 		bw := vWord{bits: w.bits[lo : lo+8]}
-		cb := int64(c >> uint(lo) & 0xFF)
+		c := cb[k]
 		if v, isC := bw.conc(); isC {
 			switch {
-			case int64(v) > cb:
+			case int64(v) > c:
 				return fTT, nil
-			case int64(v) < cb:
+			case int64(v) < c:
 				return fFF, nil
 			}
 			return rec(k + 1)
@@ -386,13 +434,22 @@ func geWord(w vWord, c uint64) (string, error) {
 		if err != nil {
 			return "", err
 		}
+		ge := func(c int64) string {
+			switch {
+			case c <= 0:
+				return fTT
+			case c > 255:
+				return fFF
+			}
+			return fGe(int64(idx), c)
+		}
 		switch rest {
 		case fTT:
-			return fGe(int64(idx), cb), nil
+			return ge(c), nil
 		case fFF:
-			return fGe(int64(idx), cb+1), nil
+			return ge(c + 1), nil
 		}
-		return fOr(fGe(int64(idx), cb+1), fAnd(fAtom(int64(idx), 0xFF, cb), rest)), nil
+		return bOr(ge(c+1), fAnd(fAtom(int64(idx), 0xFF, c), rest)), nil
 	}
 	return rec(0)
 }
@@ -430,6 +487,10 @@ func bNot(a string) string {
 	case fFF:
 		return fTT
 	}
+	// !!g = g
+	if n, ok := fstruct[a]; ok && n.op == '?' && n.b == fFF && n.c == fTT {
+		return n.a
+	}
 	return fNot(a)
 }
 
@@ -439,8 +500,428 @@ func bIte(c, a, b string) string {
 		return a
 	case c == fFF:
 		return b
+	case a == b:
+		return a
+	case a == fTT && b == fFF:
+		return c
+	case a == fFF && b == fTT:
+		return bNot(c)
 	}
-	return fIte(c, a, b)
+	return splitIte(c, a, b)
+}
+
+// splitIte is ite(c, a, b).  When the condition is itself an if-then-else (a disjunction
+// p ∨ q, the "c != 0" of a three-way comparison, …) the Shannon expansion on its condition
+//
+//	ite(ite(p, t, e), a, b) = ite(p, ite(t, a, b), ite(e, a, b))
+//
+// with a and b simplified under p resp. ¬p is used instead when that is the shorter text.
+func splitIte(c, a, b string) string {
+	plain := fIte(c, a, b)
+	n, ok := fstruct[c]
+	if !ok || n.op != '?' || (n.b == fFF && n.c == fTT) {
+		return plain
+	}
+	var nilPC *pcNode
+	pt, pf := nilPC.assume(n.a, true), nilPC.assume(n.a, false)
+	alt := bIte(n.a, bIte(pt.prune(n.b), pt.prune(a), pt.prune(b)), bIte(pf.prune(n.c), pf.prune(a), pf.prune(b)))
+	if len(alt) < len(plain) {
+		return alt
+	}
+	return plain
+}
+
+// ---------------------------------------------------------------- path conditions
+
+// pcNode is a persistent list of the formulas assumed true / false on the current path.
+type pcNode struct {
+	f    string
+	pol  bool
+	next *pcNode
+	dead bool // the assumptions are contradictory: no address takes this path
+}
+
+// byteSet is what is known about one byte of the parameter: lo <= p[i] <= hi and
+// p[i] & mask == bits (empty when lo > hi).
+type byteSet struct{ lo, hi, mask, bits int }
+
+var fullByte = byteSet{0, 255, 0, 0}
+var noByte = byteSet{1, 0, 0, 0}
+
+func (a byteSet) empty() bool {
+	if a.lo > a.hi {
+		return true
+	}
+	// is there a value in [lo,hi] with the known bits?  (few candidates: scan)
+	for x := a.lo; x <= a.hi; x++ {
+		if x&a.mask == a.bits {
+			return false
+		}
+	}
+	return true
+}
+
+func (a byteSet) meet(b byteSet) byteSet {
+	if a.lo > a.hi || b.lo > b.hi {
+		return noByte
+	}
+	if (a.bits^b.bits)&a.mask&b.mask != 0 {
+		return noByte
+	}
+	r := byteSet{max(a.lo, b.lo), min(a.hi, b.hi), a.mask | b.mask, a.bits | b.bits}
+	if r.lo > r.hi {
+		return noByte
+	}
+	return r
+}
+
+func (a byteSet) join(b byteSet) byteSet {
+	switch {
+	case a.lo > a.hi:
+		return b
+	case b.lo > b.hi:
+		return a
+	}
+	m := a.mask & b.mask &^ (a.bits ^ b.bits)
+	return byteSet{min(a.lo, b.lo), max(a.hi, b.hi), m, a.bits & m}
+}
+
+type impliedKey struct {
+	f   string
+	pol bool
+	i   int
+}
+
+var impliedMemo = map[impliedKey]byteSet{}
+
+// implied over-approximates the values byte i can have when formula f is pol.
+func implied(f string, pol bool, i int) byteSet {
+	switch f {
+	case fTT:
+		if pol {
+			return fullByte
+		}
+		return noByte
+	case fFF:
+		if pol {
+			return noByte
+		}
+		return fullByte
+	}
+	n, ok := fstruct[f]
+	if !ok {
+		return fullByte
+	}
+	k := impliedKey{f, pol, i}
+	if r, done := impliedMemo[k]; done {
+		return r
+	}
+	r := fullByte
+	switch n.op {
+	case 'a':
+		if n.i == i {
+			switch {
+			case n.v&^n.m != 0: // never true
+				if pol {
+					r = noByte
+				}
+			case pol:
+				r = byteSet{n.v, n.v | (255 &^ n.m), n.m, n.v}
+			case n.m == 255 && n.v == 0:
+				r = byteSet{1, 255, 0, 0}
+			case n.m == 255 && n.v == 255:
+				r = byteSet{0, 254, 0, 0}
+			}
+		}
+	case 'g':
+		if n.i == i {
+			if pol {
+				r = byteSet{n.v, 255, 0, 0}
+			} else {
+				r = byteSet{0, n.v - 1, 0, 0}
+			}
+			if r.lo > r.hi {
+				r = noByte
+			}
+		}
+	case '&', '|':
+		a, b := implied(n.a, pol, i), implied(n.b, pol, i)
+		if (n.op == '&') == pol {
+			r = a.meet(b)
+		} else {
+			r = a.join(b)
+		}
+	case '?':
+		r = implied(n.a, true, i).meet(implied(n.b, pol, i)).join(implied(n.a, false, i).meet(implied(n.c, pol, i)))
+	}
+	impliedMemo[k] = r
+	return r
+}
+
+// byteInfo is what the assumptions imply about byte i.
+func (pc *pcNode) byteInfo(i int) byteSet {
+	r := fullByte
+	for n := pc; n != nil; n = n.next {
+		r = r.meet(implied(n.f, n.pol, i))
+	}
+	// a bound that contradicts the known bits moves inwards (e.g. p[i] != lo)
+	for r.lo <= r.hi && r.lo&r.mask != r.bits {
+		r.lo++
+	}
+	for r.lo <= r.hi && r.hi&r.mask != r.bits {
+		r.hi--
+	}
+	return r
+}
+
+// assume adds "f is pol" to pc, together with what follows from it structurally.
+func (pc *pcNode) assume(f string, pol bool) *pcNode {
+	if f == fTT || f == fFF {
+		if (f == fTT) != pol {
+			return &pcNode{f: f, pol: pol, next: pc, dead: true}
+		}
+		return pc
+	}
+	was := pc.val(f)
+	dead := pc != nil && pc.dead
+	pc = &pcNode{f: f, pol: pol, next: pc, dead: dead || (was == 1 && !pol) || (was == -1 && pol)}
+	if n, ok := fstruct[f]; ok {
+		if !pc.dead {
+			// a byte that can no longer have any value
+			for _, i := range bytesOf(f) {
+				if pc.byteInfo(i).empty() {
+					pc.dead = true
+					break
+				}
+			}
+		}
+		switch {
+		case n.op == '&' && pol, n.op == '|' && !pol:
+			pc = pc.assume(n.a, pol).assume(n.b, pol)
+		case n.op == '?' && n.b == fFF && n.c == fTT:
+			pc = pc.assume(n.a, !pol)
+		case n.op == '?' && n.b == fTT && n.c == fFF:
+			pc = pc.assume(n.a, pol)
+		}
+	}
+	return pc
+}
+
+// val is the value of f under the assumptions: 1 true, -1 false, 0 unknown.
+func (pc *pcNode) val(f string) int { return pc.valD(f, 0) }
+
+func (pc *pcNode) valD(f string, depth int) int {
+	switch f {
+	case fTT:
+		return 1
+	case fFF:
+		return -1
+	}
+	for n := pc; n != nil; n = n.next {
+		if n.f == f {
+			if n.pol {
+				return 1
+			}
+			return -1
+		}
+	}
+	// unit propagation: an assumed disjunction / conjunction / if-then-else of which f is a
+	// part, the other parts being decided
+	if depth < 2 {
+		sign := func(p bool) int {
+			if p {
+				return 1
+			}
+			return -1
+		}
+		for n := pc; n != nil; n = n.next {
+			m, ok := fstruct[n.f]
+			if !ok {
+				continue
+			}
+			switch {
+			case m.op == '|' && n.pol, m.op == '&' && !n.pol:
+				// (a ∨ b) with the other one false  /  ¬(a ∧ b) with the other one true
+				other := ""
+				switch f {
+				case m.a:
+					other = m.b
+				case m.b:
+					other = m.a
+				default:
+					continue
+				}
+				if pc.valD(other, depth+1) == -sign(n.pol) {
+					return sign(n.pol)
+				}
+			case m.op == '?':
+				if f != m.b && f != m.c {
+					continue
+				}
+				switch cv := pc.valD(m.a, depth+1); {
+				case cv == 1 && f == m.b, cv == -1 && f == m.c:
+					return sign(n.pol)
+				}
+				// ite(c, t, e) = p, the branch that is not f has the constant value !p: f was taken
+				if f == m.c && (m.b == fTT || m.b == fFF) && (m.b == fTT) != n.pol {
+					return sign(n.pol)
+				}
+				if f == m.b && (m.c == fTT || m.c == fFF) && (m.c == fTT) != n.pol {
+					return sign(n.pol)
+				}
+			}
+		}
+	}
+	n, ok := fstruct[f]
+	if !ok {
+		return 0
+	}
+	switch n.op {
+	case 'a', 'g':
+		if pc == nil {
+			return 0
+		}
+		info := pc.byteInfo(n.i)
+		if info.meet(implied(f, true, n.i)).empty() {
+			return -1
+		}
+		if info.meet(implied(f, false, n.i)).empty() {
+			// p[i] is confined to values on which f holds — provided "f false" was
+			// described exactly, which it is for ge and for full-mask atoms at the ends;
+			// for the other atoms implied(f,false) is the full byte, never empty
+			return 1
+		}
+		if n.op == 'a' && info.lo == info.hi && info.lo&n.m == n.v {
+			return 1
+		}
+		if n.op == 'a' && n.m&^info.mask == 0 && info.bits&n.m == n.v {
+			return 1
+		}
+	case '&':
+		a, b := pc.valD(n.a, depth), pc.valD(n.b, depth)
+		switch {
+		case a == -1 || b == -1:
+			return -1
+		case a == 1 && b == 1:
+			return 1
+		}
+	case '|':
+		a, b := pc.valD(n.a, depth), pc.valD(n.b, depth)
+		switch {
+		case a == 1 || b == 1:
+			return 1
+		case a == -1 && b == -1:
+			return -1
+		}
+	case '?':
+		switch pc.valD(n.a, depth) {
+		case 1:
+			return pc.valD(n.b, depth)
+		case -1:
+			return pc.valD(n.c, depth)
+		}
+		if t, e := pc.valD(n.b, depth), pc.valD(n.c, depth); t == e {
+			return t
+		}
+	}
+	return 0
+}
+
+// prune simplifies f under the assumptions (dead branches are removed); f itself is
+// returned, unchanged, when nothing is known about any part of it.
+func (pc *pcNode) prune(f string) string {
+	if pc == nil {
+		return f
+	}
+	switch pc.val(f) {
+	case 1:
+		return fTT
+	case -1:
+		return fFF
+	}
+	n, ok := fstruct[f]
+	if !ok {
+		return f
+	}
+	switch n.op {
+	case '&':
+		a, b := pc.prune(n.a), pc.prune(n.b)
+		if a != n.a || b != n.b {
+			return bAnd(a, b)
+		}
+	case '|':
+		a, b := pc.prune(n.a), pc.prune(n.b)
+		if a != n.a || b != n.b {
+			return bOr(a, b)
+		}
+	case '?':
+		c, t, e := pc.prune(n.a), pc.assume(n.a, true).prune(n.b), pc.assume(n.a, false).prune(n.c)
+		if c != n.a || t != n.b || e != n.c {
+			if t == fFF && e == fTT {
+				return bNot(c)
+			}
+			return bIte(c, t, e)
+		}
+	}
+	return f
+}
+
+var bytesOfMemo = map[string][]int{}
+
+// bytesOf lists the byte indices a formula mentions.
+func bytesOf(f string) []int {
+	if r, ok := bytesOfMemo[f]; ok {
+		return r
+	}
+	n, ok := fstruct[f]
+	if !ok {
+		return nil
+	}
+	seen := map[int]bool{}
+	var res []int
+	add := func(xs []int) {
+		for _, x := range xs {
+			if !seen[x] {
+				seen[x] = true
+				res = append(res, x)
+			}
+		}
+	}
+	switch n.op {
+	case 'a', 'g':
+		res = []int{n.i}
+	case '&', '|':
+		add(bytesOf(n.a))
+		add(bytesOf(n.b))
+	case '?':
+		add(bytesOf(n.a))
+		add(bytesOf(n.b))
+		add(bytesOf(n.c))
+	}
+	bytesOfMemo[f] = res
+	return res
+}
+
+// common is the longest common tail of two path conditions (the path before they forked).
+func (pc *pcNode) common(o *pcNode) *pcNode {
+	la, lb := 0, 0
+	for n := pc; n != nil; n = n.next {
+		la++
+	}
+	for n := o; n != nil; n = n.next {
+		lb++
+	}
+	a, b := pc, o
+	for ; la > lb; la-- {
+		a = a.next
+	}
+	for ; lb > la; lb-- {
+		b = b.next
+	}
+	for a != b {
+		a, b = a.next, b.next
+	}
+	return a
 }
 
 // ---------------------------------------------------------------- addresses
